@@ -34,3 +34,8 @@ Definition is_message (S : schema) (t : ty) : bool :=
                end
   | _ => false
   end.
+
+(* fuel that suffices for the asynchronous decoders on a stream of n bytes: every level of recursion of the emitted
+   decode_async and of the asynchronous skipper consumes at least one byte (a field header, a container header), and
+   every loop iteration costs a byte or the one bool value a compact field header may have left pending *)
+Definition fuel_bound (n : nat) : nat := n + 2.
